@@ -62,10 +62,10 @@ type Pipe struct {
 	Marks []Mark
 
 	SegMode     int
-	EOFWithData bool // last segment arrives together with the end condition
+	EOFWithData bool   // last segment arrives together with the end condition
 	OnWrite     func() // called at the start of every Write (an observer standing at the destination)
-	FailOnce    bool // only the WFailAt-th write call fails; later ones are accepted (and counted in AfterErr)
-	NetErr      bool // injected failures are net.Errors with Timeout() and Temporary() true
+	FailOnce    bool   // only the WFailAt-th write call fails; later ones are accepted (and counted in AfterErr)
+	NetErr      bool   // injected failures are net.Errors with Timeout() and Temporary() true
 	// Transient: byte ranges [from, to) of In inside which one Read (the
 	// first that starts there, chosen by TransientSalt) fails with a
 	// temporary net.Error and delivers nothing; the next Read goes on as if
@@ -79,6 +79,11 @@ type Pipe struct {
 
 	CutAt   int // -1: none
 	CutKind int
+	// CutResume: a CutErr fires once; afterwards the stream goes on where it
+	// stopped (a transport error that does not end the connection). An API
+	// call that was told about the error must still not report success.
+	CutResume bool
+	resumed   bool
 
 	pos   int
 	reads int64
@@ -138,6 +143,17 @@ func (p *Pipe) endErr() error {
 	return io.EOF
 }
 
+// hitEnd returns the end condition and, for a resuming cut, lifts it.
+func (p *Pipe) hitEnd() error {
+	err := p.endErr()
+	if p.CutResume && !p.resumed && err != io.EOF {
+		p.resumed = true
+		p.CutAt = -1
+		p.R.Fault("transport_error_then_stream_resumes")
+	}
+	return err
+}
+
 func (p *Pipe) injected() error {
 	if p.NetErr {
 		return ErrInjectedNet
@@ -178,7 +194,7 @@ func (p *Pipe) Read(b []byte) (int, error) {
 	avail := p.limit() - p.pos
 	if avail <= 0 {
 		p.R.D.Add(uint64(p.pos)<<8 | 0xE0)
-		return 0, p.endErr()
+		return 0, p.hitEnd()
 	}
 	k := avail
 	if k > len(b) {
@@ -205,7 +221,7 @@ func (p *Pipe) Read(b []byte) (int, error) {
 	}
 	if p.pos == p.limit() && p.EOFWithData {
 		p.R.Fault("eof_with_data")
-		return k, p.endErr()
+		return k, p.hitEnd()
 	}
 	return k, nil
 }
